@@ -170,6 +170,9 @@ XStep(m, code, jt, ar, v) ==
       [] o = "throw"       -> Trap(m)
       \* tail call of the (never trapping) imported op k: its effect, then this activation is over
       [] o = "rcall"       -> Return(Emit(m, [e |-> "op", k |-> c.k]), ar)
+      \* the same through table slot 0 (which holds op 3): return_call_indirect pops the slot index
+      [] o = "rcalli"      -> IF Len(m.vs) = 0 THEN Stuck(m)
+                              ELSE Return(Emit([m EXCEPT !.vs = Pop(@)], [e |-> "op", k |-> 3]), ar)
       [] OTHER -> Stuck(m)
 
 ---------------------------------------------------------------------------
